@@ -206,7 +206,7 @@ def worker(chunk):
 
 def build_cases(thorough):
     cases = []
-    nmax = 3 if thorough else 2
+    nmax = 4 if thorough else 2
     argvs = [[]]
     for n in range(1, nmax + 1):
         argvs += [list(c) for c in itertools.product(ARGS, repeat=n)]
@@ -289,7 +289,7 @@ def run(ctx):
 
 
 def nmax_(ctx):
-    return 3 if ctx.thorough else 2
+    return 4 if ctx.thorough else 2
 
 
 def replay(ctx, case):
